@@ -7,27 +7,36 @@ RULE = ("exhaustive: one retirable service after query+retire, every sequence of
         "{retire, retired(1), exit, stop-done, retired(unknown)}; two services (second supporting retirement or not), every "
         "sequence of length <= 3 / 5 over {query-all, retire, retired(1), retired(2), exit, stop-done}; resolvability changing under the "
         "controller: one service, every sequence of length <= 3 / 5 over {hide(1), show(1), query-all, retire, retired(1), exit}, and two "
-        "services after query-all, every sequence of length <= 3 / 5 over {hide(2), show(2), retire, retired(1), retired(2), exit}; each followed by web_nodes. "
+        "services after query-all, every sequence of length <= 3 / 5 over {hide(2), show(2), retire, retired(1), retired(2), exit}; cluster membership "
+        "changing under the controller (topology rebuilt, own services re-published with the node's current state): one service after query-all, every "
+        "sequence of length <= 4 / 6 over {topo(1), retire, retired(1), exit, stop-done}, and two services, every sequence of length <= 3 / 4 over "
+        "{topo(2), topo(0), query-all, retire, retired(1), notify(2), hide(2), show(2)}; each followed by web_nodes. "
         "random: 0-4 hosted services with mixed dispositions (ok / no / no listener / error / absent, sometimes listed twice), "
         "life-cycle stories with noise, repetitions and premature commands, and uniformly random histories of 1-60 operations over "
         "stat/retire/exit/web_*/unknown commands, query-all/query-one, retired notifications (known, unknown, repeated, via the real "
         "NotifyServiceRetired), other service commands, stop-done(true/false) and hide/show of a service (GetService answers nil while hidden) placed around "
-        "queries, retire, notifications and exit (shown again at once, much later, or never; retire re-issued afterwards). Non-trivial = the node published at least one "
-        "state or called StopNode; distinct = distinct item sequences.")
+        "queries, retire, notifications and exit (shown again at once, much later, or never; retire re-issued afterwards), and membership changes (0-3 other members "
+        "hosting services of the same types in assorted states) right before and/or right after queries, retire (also a repeated retire), every retired notification, "
+        "exit and stop-done, and anywhere in the random histories. Non-trivial = the node published at least one state or the node was stopped; distinct = distinct item sequences.")
 TRUSTED_BASE = [
     "Coq 8.16.1 kernel + vm_compute (case evaluation, Examples); no native_compute",
-    "hand translation nodectrl/{nodectrl,cmds,cmd,service_entry}.go (+ the answers of node/builtin/ctrlcmd.go) -> C12/Model.v, measured by this correspondence run",
-    "Go harness harness/c12 (recording INodeApp/cluster.Provider, scripted ICtrlCmdListener, settle barrier through the actors' mailboxes, received ctrl.cmd sorted by service), nodectrl/verif_export.go (tag verif), bin/check.py JSON->Coq term printer",
+    "hand translation nodectrl/{nodectrl,cmds,cmd,service_entry}.go, node/app/{app,cluster,clusterservices}.go as far as the controller uses them (GetService over the service directory with per-service state copies, FilterSelfServices, UpdateNodeState, StopNode) (+ the answers of node/builtin/ctrlcmd.go) -> C12/Model.v, measured by this correspondence run",
+    "Go harness harness/c12: every case starts a real node in-process (app.Node.Prepare/StartNode on configuration files written for the case; launch mode of three socket-free modules: shared actor system whose address is the node address, a cluster.Provider modelled on clusterproviders/etcd - UpdateClusterState only records the own state, topologies are published on membership / service-list changes with member copies - and a gate module whose Stop is the observed 'node stopped' and completes on OStopDone); hosted services created by App.StartServices through service.Factory with a scripted ICtrlCmdListener; commands sent to the admin at member host:port + define.NodeAdmin as _tools/master does; settle barrier through the actors' mailboxes, received ctrl.cmd sorted by service; nodectrl/verif_export.go (tag verif); bin/check.py JSON->Coq term printer",
     "modelled not verified: protoactor local delivery and the actorex mailbox (FIFO per mailbox), actorex/service request/response matching, apimapper dispatch, JSON rendering of web_nodes; the 3 s start-up timer is replaced by explicit query operations; request time-outs (30 s) never fire within a case",
 ]
 ASSUMPTIONS = [
-    "NodeCtrl is only touched from the admin service's goroutine: commands, query acks, service notifications and the StopNode completion are processed one at a time (the harness delivers the StopNode completion in the admin context; app.App.StopNode calls it from the application's run service)",
-    "the set of hosted services is fixed at NodeCtrl.Start (makeServices); a service's answer to queryretire does not change over time; whether INodeApp.GetService resolves it MAY change at any time (OHide/OShow), the service itself keeps running",
+    "NodeCtrl is only touched from the admin service's goroutine: commands, query acks, service notifications and the StopNode completion are processed one at a time (the harness completes the gate module's Stop in the admin context, so the rest of baseapp.App.Stop and NodeCtrl's completion run there; in a deployed node they run wherever the last module's Stop completes)",
+    "topology publications (Cluster.UpdateClusterTopology) happen between controller operations, not concurrently with one (the etcd provider calls it from its watch goroutine; ClusterServices replaces its maps wholesale without a lock)",
+    "the cluster provider behaves like clusterproviders/etcd: UpdateClusterState records the own state and does not publish a topology; a topology is published on membership changes, the own member always included with the state recorded last; no other member hosts a service with the name of an own service (MakeMembers keeps whichever it meets first and logs 'duplicate service name')",
+    "the set of hosted services is fixed at NodeCtrl.Start (makeServices); a service's answer to queryretire does not change over time; whether INodeApp.GetService resolves it MAY change at any time (OHide/OShow: a topology whose own member lacks / again lists the service), the service itself keeps running; a configured service that no process runs for (DAbsent) is listed in the directory like any other, the command sent to it is lost",
     "service names are arbitrary distinct strings (tokens in the model); a name listed twice in the node configuration denotes one service",
 ]
-TECHNIQUE = ("Coq proof (state machine of the repaired NodeCtrl; invariant tying its fields to history functions `declared`/`reported` and to the "
-             "published-state trace, by induction over operations) + differential correspondence against the real NodeCtrl driven through its admin actor")
+TECHNIQUE = ("Coq proof (state machine of the repaired NodeCtrl over the node application's service directory; invariant tying its fields to history functions "
+             "`declared`/`reported`/`hidden` and to the published-state trace, by induction over operations; simulation between a history and the same history "
+             "without membership changes) + differential correspondence against the real NodeCtrl under the real node/app.App, driven through its admin actor")
 LEVEL_TEXT = ("Machine-checked Coq theorems over all configurations and all operation histories: retire guard (iff), every hosted service resolvable at that moment told (and only those), a service that did not itself report retired never counted as retired, "
               "retired only after / as soon as all services reported, exit guard (iff), StopNode at most once and exactly once per accepted exit, "
-              "published states monotone, refused commands are no-ops, and the executable monitor accepts every model trace. The model is tied to the "
+              "published states monotone, refused commands are no-ops, the service directory as a function of the history (entries = hosted services the topology lists, each with the "
+              "node state copied at the last topology publication, stale in between), name resolution and hence command delivery independent of those state copies "
+              "(erasing every membership change from any history leaves all other observations unchanged), and the executable monitor accepts every model trace. The model is tied to the "
               "Go code by running both on the same histories each run; the monitor (the theorems' statements) is also evaluated on the implementation's own traces.")
